@@ -77,7 +77,9 @@ def compare_subject(p, cs, resolvers, subinfo, key, parts, nstates, seed, subs):
             err = {}
             for fmt, body in bodies.items():
                 try:
-                    outs[fmt], _ = diff.run_il(body, stt, resolvers[fmt])
+                    # both texts are executed literally (old-bank reads after a write are not "ambiguous" here:
+                    # the two layouts must perform the same reads, whatever they mean)
+                    outs[fmt], _ = diff.run_il(body, stt, resolvers[fmt], literal_banks=True)
                 except diff.Discard as e:
                     err[fmt] = "discard:" + e.why
                 except ILError as e:
